@@ -20,6 +20,7 @@ UVL_NAMES = {
     "opword": "AND", "brackets": "a[1]{b}", "keyword-features": "features", "digits": "64",
     "number-like": "1e3", "case-variant": "alpha_1", "true": "true",
     "tab-inside": "tab\there", "leading-blank": " lead", "trailing-blank": "trail ", "double-blank": "two  blanks",
+    "percent": "50% off", "percent-escape-look-alike": "a%22b%25",
     "apostrophe": "it's", "apostrophes-at-both-ends": "'x'", "apostrophe-first": "'lead", "comma-colon": "a,b:c", "slashes": "a/b\\c", "hash-at": "#tag@home",
 }
 
@@ -136,6 +137,17 @@ def _run(pm: ProgramModel, ctx: Ctx, mb: ModelBuilder, cd: Codec) -> None:
     mb.relation(root, [a], 1, 1)
     a._f["attributes"].append(mb.attribute("cost per unit", 5, a))
     cd.report("QUOTE", "attribute-name:space", cd.roundtrip(mb.model(root, [])), "attribute named 'cost per unit'", ("attribute",))
+    # attribute names and the keys of nested maps are names too: the same classes as feature names (what is escaped or
+    # quoted for one must be undone for all), also when a constraint refers to the attribute
+    for cls_ in ("punct", "unicode", "digit-first", "keyword", "percent", "percent-escape-look-alike", "leading-blank", "opword"):
+        nm_ = UVL_NAMES[cls_]
+        root = mb.feature("Root")
+        a = mb.feature("A")
+        mb.relation(root, [a], 1, 1)
+        a._f["attributes"].append(mb.attribute(nm_, 5, a))
+        a._f["attributes"].append(mb.attribute("meta", {nm_: 1, "plain": {nm_ + " 2": "v"}}, a))
+        cd.report("QUOTE", f"attribute-name:{cls_}", cd.roundtrip(mb.model(root, [])),
+                  f"attribute and map key named {nm_!r} ({cls_})", ("attribute",))
     # NAMES ------------------------------------------------------------------------------------------
     names = ("name", "root", "parent", "relation", "constraint", "constraint-count")
     for cls_, name in UVL_NAMES.items():
